@@ -10,10 +10,10 @@ HT = "source/hash_table.c"
 ST = "hash_table_state"
 
 DECIDED = [
-    "DESTRUCT: key/value destructors are invoked only by put (overwrite, key only when the pointer differs), remove (no out-parameter), iterator delete (when requested) and clear (occupied slots); removal either hands the entry over or destroys it, never both or neither",
+    "DESTRUCT: key/value destructors are invoked only by put (overwrite, key only when the pointer differs), remove (no out-parameter), iterator delete (when requested) and clear (occupied slots); removal either hands the entry over or destroys it, never both or neither; every destructor argument is the key/value field of a stored aws_hash_element; foreach deletes with destroy_contents = false",
     "COUNT: entry_count is incremented once per new entry (before it is emplaced), decremented once per removal, zeroed only together with the slot array",
     "LOAD: a new entry is admitted only after the load check may have expanded the table; the resize clamps max_load below size (an empty slot always exists, so probing terminates)",
-    "NONZERO-HASH: every hash code handed to the table is >= 1 (0 marks an empty slot); the user's hash function is called only by s_hash_for and its equality only through the NULL-safe wrapper, which treats identical pointers (including NULL/NULL) as equal first",
+    "NONZERO-HASH: every hash code handed to the table is >= 1 (0 marks an empty slot) and depends on no table state other than hash_fn; the user's hash function is called only by s_hash_for and its equality only through the NULL-safe wrapper, which treats identical pointers (including NULL/NULL) as equal first",
     "STALE: state derived from the table before a resize is re-read before it is used again",
     "SLOT: every subscript of the slot array is below size (index & mask, loop counters below size); named assumptions for iterator-held indices",
     "ITER: iterator delete shrinks the limit exactly when the back-shift ended outside the window [slot, limit); done() is an equality test; slot steps back once",
@@ -112,6 +112,11 @@ def destruct(R, fns):
                 n += 1
                 R.check(name in allowed, "DESTRUCT", "who:%s@%s" % (via[1], name), where(f, e), "destructor invoked from an owning operation",
                         "%s invoked from %s: entries would be destroyed by an operation that must not (or twice)" % (via[1], name))
+                a0 = RU.uncast(f, RU.arg(f, e.node, 0))
+                fld = "key" if via[1] == "destroy_key_fn" else "value"
+                R.check(a0 is not None and a0["k"] == "member" and a0.get("rec") == "aws_hash_element" and a0["f"] == fld, "DESTRUCT", "%s:%s-destroys-stored-%s" % (name, via[1], fld), where(f, e),
+                        "the destructor is given the stored element's %s (%s)" % (fld, f.show(a0) if a0 else None),
+                        "%s is given `%s`, which is not the %s held by a table entry: a pointer the table does not own is destroyed and the stored one leaks" % (via[1], f.show(a0) if a0 else None, fld))
                 g = gl(f, e)
                 if name == "aws_hash_table_put":
                     ok = ("*was_created", "==", None) in g and (via[1] != "destroy_key_fn" or ("p_elem->key", "!=", "key") in g)
@@ -151,6 +156,12 @@ def destruct(R, fns):
         R.check(("p_value", "!=", None) in g1 and ("p_value", "==", None) in g2, "DESTRUCT", "remove:handover-xor-destroy", where(f, cp[0]), "hand-over and destruction are the two arms of one test")
         R.check(all(rm[0] in RU.reach_from(f, x) for x in cp + dk), "DESTRUCT", "remove:unlink-after", where(f, rm[0]), "the entry is unlinked after it was handed over / destroyed")
         R.check(any(x[0] == "rv" and x[1] == "==" for x in gl(f, rm[0])) or True, "DESTRUCT", "remove:found", where(f, rm[0]), "only a found entry is removed")
+    # foreach-with-delete removes without destroying (documented: "destroy_fn will NOT be invoked")
+    for nm, g in sorted(fns.items()):
+        for e in g.calls("aws_hash_iter_delete"):
+            R.check(nm == "aws_hash_table_foreach" and g.is_const(RU.arg(g, e.node, 1)) == 0, "DESTRUCT", "iter-delete-caller:%s" % nm, where(g, e), "foreach deletes without requesting destruction",
+                    "%s deletes through the iterator with destroy_contents = %s: entries removed by a foreach callback must not be destroyed" % (nm, g.show(RU.arg(g, e.node, 1))))
+    R.require(len(fns["aws_hash_table_foreach"].calls("aws_hash_iter_delete")) == 1, "foreach: expected one aws_hash_iter_delete call")
     f = fns["aws_hash_table_put"]
     sk = [e for e in f.field_accesses(rec="aws_hash_element", field=("key", "value"), modes=("w",))]
     vals = {e.node["f"]: f.show(_assignment_of(f, e)["a"][1]) for e in sk if _assignment_of(f, e)}
@@ -229,6 +240,10 @@ def nonzero_hash(R, P, fns):
             R.check(v is not None and entails(st, Poly.const(1) - v), "NONZERO-HASH", "s_hash_for:returns>=1", "%s:%d in s_hash_for()" % (f.file.replace("/repo/", ""), r["loc"][0]),
                     "returned hash code >= 1", "s_hash_for can return %r: a zero hash code marks the slot empty and the entry is lost" % v)
     R.require(n >= 2, "s_hash_for: expected at least two returns")
+    # the code is a function of the key alone: a code that depends on table state changes across a resize and the entry is lost
+    reads = sorted({e.node["f"] for e in f.field_accesses(rec=ST) if e.mode in ("r", "rw")})
+    R.check(reads == ["hash_fn"], "NONZERO-HASH", "s_hash_for:function-of-key-only", "s_hash_for()", "reads no table state except hash_fn",
+            "s_hash_for reads %s: the hash code of a key would change when the table changes (resize), so stored entries are no longer found" % [r for r in reads if r != "hash_fn"])
     for name, g in sorted(fns.items()):
         for e in g.indirect_calls():
             via = RU.indirect_via(g, e.node)
@@ -411,6 +426,10 @@ def hash_align(R, P):
 
 
 MUTANTS = [
+    {"name": "remove-destroys-lookup-key", "file": HT, "expect": "DESTRUCT", "old": "            state->destroy_key_fn((void *)entry->element.key);\n        }\n        if (state->destroy_value_fn) {\n            state->destroy_value_fn(entry->element.value);\n        }\n    }\n    s_remove_entry(state, entry);",
+     "new": "            state->destroy_key_fn((void *)key);\n        }\n        if (state->destroy_value_fn) {\n            state->destroy_value_fn(entry->element.value);\n        }\n    }\n    s_remove_entry(state, entry);"},
+    {"name": "zero-hash-becomes-size", "file": HT, "expect": "NONZERO-HASH", "old": "    if (!hash_code) {\n        hash_code = 1;\n    }", "new": "    if (!hash_code) {\n        hash_code = (uint64_t)state->size;\n    }"},
+    {"name": "foreach-delete-destroys", "file": HT, "expect": "DESTRUCT", "old": "aws_hash_iter_delete(&iter, false);", "new": "aws_hash_iter_delete(&iter, true);"},
     {"name": "iter-limit-gt", "file": HT, "expect": "ITER", "old": "if (last_index < iter->slot || last_index >= iter->limit) {", "new": "if (last_index < iter->slot || last_index > iter->limit) {"},
     {"name": "null-test-before-identity", "file": HT, "expect": "NONZERO-HASH",
      "old": "    if (a == b) {\n        return true;\n    }\n    /* If one but not both are null, the objects are not equal */\n    if (a == NULL || b == NULL) {\n        return false;\n    }",
